@@ -59,12 +59,17 @@ CHECKS = {
              "checksums, [general]) on a model of SortedConfigParser, of the >= 1.0 reader, and of discinfo. Proved: "
              "C04_typed_checksum_roundtrip; writer side of the tree-level statement: C04_written_release_and_tree (the scalar facts of "
              "[release] and [tree] are in the written table at their documented places and survive every later section writer) and "
-             "C04_variant_writer_stays_in_its_sections; C17_general_mirror covers [general]. The reader side and the remaining "
-             "sections are decided by the docs_treeinfo correspondence: model "
+             "C04_variant_writer_stays_in_its_sections; C04_written_header_is_current_and_layered_flag; reader on the writer's table: "
+             "C04_release_and_tree_read_back (whatever the reader returns for a table the writer produced carries the written release "
+             "name/short/version/is_layered and the tree's arch, platform set and integer timestamp); C17_general_mirror covers "
+             "[general]. That the reader succeeds, and the variant/image/checksum/stage2/media sections, are decided by the "
+             "docs_treeinfo correspondence: model "
              "writer vs real writer byte for byte; the section table the real parser produces from the written text is loaded by "
              "the model reader and compared with the re-read object; implementation-side oracle compares every fact and the "
              "second write; discinfo likewise.",
-        note="Partial: deser_ti (ser_ti x) = Ok (norm x) is not a Coq theorem (writer-side facts are). ConfigParser text parsing and float repr are "
+        note="Partial: deser_ti (ser_ti x) = Ok (norm x) as a whole is not a Coq theorem (the release/tree part is, conditionally on the "
+             "reader returning; C07_loaded_treeinfo_is_valid covers validity of what it returns). Defect D15 (integer timestamps beyond "
+             "2^53 read through float) was found by this check and fixed in /repo 0d5e3cd. ConfigParser text parsing and float repr are "
              "CPython's; values containing '%' (interpolation) are outside the generated domain (O2).",
         design="DESIGN.md section 6 C04"),
     "C05": dict(
@@ -78,7 +83,7 @@ CHECKS = {
              "composeinfo equality with the documented mapping and with the model reader; older images/rpms documents also go through the "
              "model readers with every attribute compared (the suites of C10, whose re-filing theorems cover these converters); the "
              "family/version heuristics of the pre-productmd release reader are a reference model (Model/TreeInfo00.v, using the "
-             "regenerated patterns) corresponded on a pool of family names and version strings.",
+             "regenerated patterns) corresponded on a pool of family names and version strings. C05_composeinfo_conversion_happens_once: corollary of the C01 document theorem - once a loaded composeinfo is written, re-loading gives the same object and the second write the same document.",
         note="Partial: of the pre-productmd (0.0) and 0.3 treeinfo readers only the release heuristics are modelled; the other "
              "sections are covered by the implementation-side oracle. Known finding K3 (opensuse fixture).",
         design="DESIGN.md section 6 C05"),
@@ -135,7 +140,7 @@ CHECKS = {
              "documented attributes, against the regenerated UNIQUE_IMAGE_ATTRIBUTES), C09_identify_ser (object identity = "
              "identity of the serialised dict, using the regenerated _validate_merges_variants). Tie: op-sequence differential "
              "runs over small identity domains (incl. blank subvariants and images without checksums yet), header versions below/at/above "
-             "1.1 and fresh manifests; manifests loaded from 1.0/1.1/1.2 documents then asked to add a clashing image.",
+             "1.1 and fresh manifests; manifests loaded from 1.0/1.1/1.2 documents then asked to add a clashing image. C09_loaded_manifest_is_unique: a loaded manifest of format >= 1.1 satisfies the same invariant (every image of the document goes through add), i.e. a document holding a clashing pair is rejected.",
         note="Python == on values modelled structurally (bool as int, dicts as mappings). Loaded-document collisions are "
              "covered by the load correspondence (C07/C02 suites) since every loaded image goes through the same add.",
         design="DESIGN.md section 6 C09"),
@@ -149,7 +154,7 @@ CHECKS = {
              "and C10_rpms_03_source_refiled (a source package of the variant's 'src' table is filed under its canonical name under "
              "each binary architecture that lists a package built from it). Tie: add histories with src/nosrc/unknown arches; down-converted images 1.0/1.1 "
              "and rpms 0.1-0.3 documents with 'src' cells loaded by the real library and the model, with an implementation-side "
-             "oracle for the re-filing clause.",
+             "oracle for the re-filing clause. C10_documented_architectures_are_known (same obligation as in C12: 'unknown' is measured against the documented table).",
         note="The theorems are about the reader's re-filing step and the 0.3 converter of the model; JSON text parsing is CPython's. "
              "Format 0.3 of the rpms manifest has no written specification (the down-converter follows what the reader consumes).",
         design="DESIGN.md section 6 C10"),
@@ -177,7 +182,7 @@ CHECKS = {
              "C12_*_refusal_class (ValueError / TypeError only), the same for Modules.add and ExtraFiles.add, and "
              "C12_relative_to_strips/keeps for dump_for_tree. Tied to the code by op-sequence differential runs comparing the "
              "whole mapping after every call, plus an implementation-side oracle (refused call leaves the mapping unchanged, "
-             "only the addressed cell changes).",
+             "only the addressed cell changes). C12_documented_architectures_are_known: every name of a frozen copy of the shipped architecture table is in the regenerated table (an implementation-side oracle adds under each of them).",
         note="Argument types as documented (str / str-or-None / list); wrongly typed arguments are outside the modelled domain.",
         design="DESIGN.md section 6 C12"),
     "C13": dict(
